@@ -4,11 +4,13 @@
     ("uuid" / "named-uuid"); the theorems hold for every such predicate.
     Values are in notation normal form (a singleton set *is* its element on
     the wire, RFC 7047 5.1); [set_roundtrip] covers singleton sets decoded
-    as sets.  Operations, results, table updates, monitor requests/replies and
-    whole schemas are records of these values assembled by encoding/json's
-    struct-tag codec, which is not modelled: they are covered by the driver's
+    as sets.  Operations (all kinds, every optional member present or absent,
+    the select rule for "where") are modelled field by field with
+    encoding/json's omitempty rules: [C12_operation_roundtrip].  Results,
+    table updates, monitor requests/replies and whole schemas are further
+    struct-tag records of the same values; they are covered by the driver's
     round-trip oracle on the implementation only (see DESIGN.md). *)
-From LOV Require Import Wire.Decode Wire.Encode Wire.RoundTrip Wire.SchemaCodec Wire.SchemaCodecProofs Wire.SchemaCodecRT.
+From LOV Require Import Wire.Decode Wire.Encode Wire.RoundTrip Wire.SchemaCodec Wire.SchemaCodecProofs Wire.SchemaCodecRT Wire.Operation Wire.OperationProofs.
 
 Theorem C12_value_roundtrip : forall vu f v,
   wf_value v = true -> notation (5 + f) (enc_value vu v) = Ok v.
@@ -71,3 +73,12 @@ Theorem C12_pinned_base_type_refuted :
   exists b, wf_base b = true /\ pinned_len_roundtrip b <> (wb_minLen b, wb_maxLen b).
 Proof. exact pinned_base_refuted. Qed.
 Print Assumptions C12_pinned_base_type_refuted.
+
+Theorem C12_operation_roundtrip : forall vu f w, wf_op w = true -> dec_op (5 + f) (enc_op vu w) = Ok w.
+Proof. exact operation_roundtrip. Qed.
+Print Assumptions C12_operation_roundtrip.
+
+Theorem C12_select_keeps_where : forall vu w,
+  o_op w = s_select -> assoc (enc_op_fields vu w) s_where = Some (GArr (map (enc_triple vu) (o_where w))).
+Proof. exact select_keeps_where. Qed.
+Print Assumptions C12_select_keeps_where.
